@@ -204,102 +204,108 @@ Definition wr (w : world) (fr : frame) (k : vkind) (x : nat) (v : Z) : world * f
 
 Inductive outcome : Set := Normal | Returned (v : Z).
 
-Notation "' pat <- m ;; k" := (match m with Some pat => k | None => None end)
+(* outcome of a fuelled run: a result, a run-time revert (failed bound assertion, call of a missing function),
+   or fuel exhaustion *)
+Inductive res3 (A : Type) : Type := Done (a : A) | Revert | Fuel.
+Arguments Done {A} _.
+Arguments Revert {A}.
+Arguments Fuel {A}.
+Notation "' pat <- m ;; k" := (match m with Done pat => k | Revert => Revert | Fuel => Fuel end)
   (at level 61, pat pattern, m at next level, right associativity).
 
 (* n iterations of a body, loop variable i = start, start+1, ... ; stops at Returned *)
-Fixpoint loop (body : world -> frame -> option (outcome * world * frame * list eff))
-         (i : nat) (cnt : nat) (cur : Z) (w : world) (fr : frame) : option (outcome * world * frame * list eff) :=
+Fixpoint loop (body : world -> frame -> res3 (outcome * world * frame * list eff))
+         (i : nat) (cnt : nat) (cur : Z) (w : world) (fr : frame) : res3 (outcome * world * frame * list eff) :=
   match cnt with
-  | O => Some (Normal, w, fr, [])
+  | O => Done (Normal, w, fr, [])
   | S c =>
       let fr1 := mk_frame (loc fr) (arg fr) (upd (lp fr) i cur) in
       '(o, w1, fr2, t1) <- body w fr1 ;;
       match o with
-      | Returned _ => Some (o, w1, fr2, Iter :: t1)
-      | Normal => '(o2, w2, fr3, t2) <- loop body i c (cur + 1) w1 fr2 ;; Some (o2, w2, fr3, Iter :: t1 ++ t2)
+      | Returned _ => Done (o, w1, fr2, Iter :: t1)
+      | Normal => '(o2, w2, fr3, t2) <- loop body i c (cur + 1) w1 fr2 ;; Done (o2, w2, fr3, Iter :: t1 ++ t2)
       end
   end.
 
-Fixpoint eval (n : nat) (p : prog) (w : world) (fr : frame) (e : expr) {struct n} : option (Z * world * list eff) :=
+Fixpoint eval (n : nat) (p : prog) (w : world) (fr : frame) (e : expr) {struct n} : res3 (Z * world * list eff) :=
   match n with
-  | O => None
+  | O => Fuel
   | S n =>
     match e with
-    | ELit z => Some (z, w, [])
-    | EVar k x => Some (rd p w fr k x, w, if is_state k then [StateRead] else [])
-    | EEnv x => Some (env w x, w, [EnvRead])
-    | EAddrMember x => Some (bal w x, w, [EnvRead])
-    | EMsgValue => Some (msgval w, w, [MsgValueRead])
+    | ELit z => Done (z, w, [])
+    | EVar k x => Done (rd p w fr k x, w, if is_state k then [StateRead] else [])
+    | EEnv x => Done (env w x, w, [EnvRead])
+    | EAddrMember x => Done (bal w x, w, [EnvRead])
+    | EMsgValue => Done (msgval w, w, [MsgValueRead])
     | EBin a b =>
-        '(va, w1, t1) <- eval n p w fr a ;; '(vb, w2, t2) <- eval n p w1 fr b ;; Some (va + vb, w2, t1 ++ t2)
+        '(va, w1, t1) <- eval n p w fr a ;; '(vb, w2, t2) <- eval n p w1 fr b ;; Done (va + vb, w2, t1 ++ t2)
     | ECall f a =>
         '(va, w1, t1) <- eval n p w fr a ;;
         match nth_error (funs p) f with
-        | None => None
+        | None => Revert
         | Some g =>
             '(o, w2, _, t2) <- exec n p w1 (mk_frame (fun _ => 0) va (fun _ => 0)) (fbody g) ;;
-            Some (match o with Returned v => v | Normal => 0 end, w2, t1 ++ t2)
+            Done (match o with Returned v => v | Normal => 0 end, w2, t1 ++ t2)
         end
     | EExtCall k m a =>
         '(va, w1, t1) <- eval n p w fr a ;;
         match k with
-        | KExt => let '(s, r) := ext_mod w1 (sto w1) va in Some (r, set_sto w1 s, t1 ++ [ModCall])
+        | KExt => let '(s, r) := ext_mod w1 (sto w1) va in Done (r, set_sto w1 s, t1 ++ [ModCall])
         | KStatic => match m with
-                     | Pure => Some (ext_pure w1 va, w1, t1)
-                     | _ => Some (ext_view w1 (sto w1) va, w1, t1 ++ [StateRead])
+                     | Pure => Done (ext_pure w1 va, w1, t1)
+                     | _ => Done (ext_view w1 (sto w1) va, w1, t1 ++ [StateRead])
                      end
         end
     | EBuiltin m a =>
         '(va, w1, t1) <- eval n p w fr a ;;
         match m with
-        | Pure => Some (ext_pure w1 va, w1, t1)
-        | View => Some (ext_view w1 (sto w1) va, w1, t1 ++ [StateRead])
-        | _ => let '(s, r) := ext_mod w1 (sto w1) va in Some (r, set_sto w1 s, t1 ++ [ModCall])
+        | Pure => Done (ext_pure w1 va, w1, t1)
+        | View => Done (ext_view w1 (sto w1) va, w1, t1 ++ [StateRead])
+        | _ => let '(s, r) := ext_mod w1 (sto w1) va in Done (r, set_sto w1 s, t1 ++ [ModCall])
         end
     end
   end
-with exec (n : nat) (p : prog) (w : world) (fr : frame) (s : stmt) {struct n} : option (outcome * world * frame * list eff) :=
+with exec (n : nat) (p : prog) (w : world) (fr : frame) (s : stmt) {struct n} : res3 (outcome * world * frame * list eff) :=
   match n with
-  | O => None
+  | O => Fuel
   | S n =>
     match s with
-    | SSkip => Some (Normal, w, fr, [])
+    | SSkip => Done (Normal, w, fr, [])
     | SSeq s t =>
         '(o, w1, fr1, t1) <- exec n p w fr s ;;
         match o with
-        | Returned _ => Some (o, w1, fr1, t1)
-        | Normal => '(o2, w2, fr2, t2) <- exec n p w1 fr1 t ;; Some (o2, w2, fr2, t1 ++ t2)
+        | Returned _ => Done (o, w1, fr1, t1)
+        | Normal => '(o2, w2, fr2, t2) <- exec n p w1 fr1 t ;; Done (o2, w2, fr2, t1 ++ t2)
         end
     | SAssign k x e =>
         '(v, w1, t1) <- eval n p w fr e ;;
-        let '(w2, fr2, t2) := wr w1 fr k x v in Some (Normal, w2, fr2, t1 ++ t2)
+        let '(w2, fr2, t2) := wr w1 fr k x v in Done (Normal, w2, fr2, t1 ++ t2)
     | SAug k x e =>
         '(v, w1, t1) <- eval n p w fr e ;;
         let '(w2, fr2, t2) := wr w1 fr k x (rd p w1 fr k x + v) in
-        Some (Normal, w2, fr2, (if is_state k then [StateRead] else []) ++ t1 ++ t2)
-    | SExpr e => '(_, w1, t1) <- eval n p w fr e ;; Some (Normal, w1, fr, t1)
-    | SLog e => '(_, w1, t1) <- eval n p w fr e ;; Some (Normal, w1, fr, t1 ++ [Log])
+        Done (Normal, w2, fr2, (if is_state k then [StateRead] else []) ++ t1 ++ t2)
+    | SExpr e => '(_, w1, t1) <- eval n p w fr e ;; Done (Normal, w1, fr, t1)
+    | SLog e => '(_, w1, t1) <- eval n p w fr e ;; Done (Normal, w1, fr, t1 ++ [Log])
     | SIf c s t =>
         '(v, w1, t1) <- eval n p w fr c ;;
-        '(o, w2, fr2, t2) <- exec n p w1 fr (if v =? 0 then t else s) ;; Some (o, w2, fr2, t1 ++ t2)
+        '(o, w2, fr2, t2) <- exec n p w1 fr (if v =? 0 then t else s) ;; Done (o, w2, fr2, t1 ++ t2)
     | SFor i r b =>
         match r with
         | RLit c => loop (fun w' fr' => exec n p w' fr' b) i (Z.to_nat c) 0 w fr
         | RBound e K =>
             '(v, w1, t1) <- eval n p w fr e ;;
-            if K <? v then None                       (* run-time assert: reverts *)
+            if K <? v then Revert                       (* run-time assert: reverts *)
             else '(o, w2, fr2, t2) <- loop (fun w' fr' => exec n p w' fr' b) i (Z.to_nat v) 0 w1 fr ;;
-                 Some (o, w2, fr2, t1 ++ t2)
+                 Done (o, w2, fr2, t1 ++ t2)
         | RExpr e =>
             '(v, w1, t1) <- eval n p w fr e ;;
             '(o, w2, fr2, t2) <- loop (fun w' fr' => exec n p w' fr' b) i (Z.to_nat v) 0 w1 fr ;;
-            Some (o, w2, fr2, t1 ++ t2)
+            Done (o, w2, fr2, t1 ++ t2)
         end
     | SForList i k x len b =>
         '(o, w2, fr2, t2) <- loop (fun w' fr' => exec n p w' fr' b) i len 0 w fr ;;
-        Some (o, w2, fr2, (if is_state k then [StateRead] else []) ++ t2)
-    | SReturn e => '(v, w1, t1) <- eval n p w fr e ;; Some (Returned v, w1, fr, t1)
+        Done (o, w2, fr2, (if is_state k then [StateRead] else []) ++ t2)
+    | SReturn e => '(v, w1, t1) <- eval n p w fr e ;; Done (Returned v, w1, fr, t1)
     end
   end.
 
